@@ -218,6 +218,7 @@ def c19(tier, seed):
                                             'steps': e['steps'], 'aid': e['aid'], 'arr': e['arr'], 'obs': co['obs']}) + '\n')
                         idx[cid] = {'cid': cid, 'seed': sd, 'action': e['act'], 'schedule_from_seed': e['sched'],
                                     'vals': seeds[sd]['vals'], 'venv': seeds[sd]['venv'],
+                                    'prev_arr': arrs[(sd, paid)], 'arr': e['arr'],
                                     'before': {'texts': po['texts'], 'obs': po['obs']},
                                     'after': {'texts': co['texts']}, 'obs': co['obs']}
             shards.append(path)
@@ -260,6 +261,49 @@ def c19(tier, seed):
             'seeded sample of simulated schedules up to %d actions, seed %d); an observation is one (arrangement, '
             'value, codec, way of compiling) tuple; it counts as distinct non-trivial when the tuple is new and the '
             'encoder produced at least one octet' % (emit_bfs[0], sim[1], seed)))
+    except pl.Machinery as e:
+        print('MACHINERY FAILURE C19: %s' % e)
+        return 2
+
+
+def replay(rp, seed):
+    """Re-execute one recorded transition (a replay file written by pl.finish): both arrangements are
+    rendered, compiled and run again and the three-line trace is judged by Trace_Arrange."""
+    case = rp['case']
+    run = pl.Run('C19', 'replay', seed)
+    try:
+        sd = case['seed']
+        arrs = {'p': case['prev_arr'], 'c': case['arr']}
+        cpath = run.path('cases.ndjson')
+        with open(cpath, 'w') as f:
+            for k in ('p', 'c'):
+                f.write(json.dumps({'aid': k, 'seed': sd, 'arr': arrs[k], 'venv': case['venv'], 'vals': case['vals']}) + '\n')
+        oshards = pl.drive(run, 'drive_arrange.py', cpath, 'obs', ['--codecs', ','.join(CODECS), '--files-codecs', 'ber'],
+                           nshards=1)
+        obs = {}
+        with open(oshards[0]) as f:
+            for line in f:
+                r = json.loads(line)
+                obs[r['aid']] = r
+        path = run.path('trace.0.ndjson')
+        cid = case.get('cid', 'replayed')
+        with open(path, 'w') as f:
+            f.write(json.dumps({'kind': 'seed', 'cid': 'seed-' + sd, 'seed': sd, 'venv': case['venv'], 'vals': case['vals']}) + '\n')
+            f.write(json.dumps({'kind': 'parent', 'cid': 'par-' + sd, 'seed': sd, 'aid': 'p', 'arr': arrs['p'],
+                                'obs': obs['p']['obs']}) + '\n')
+            f.write(json.dumps({'kind': 'edge', 'cid': cid, 'seed': sd, 'act': case['action'],
+                                'sched': case['schedule_from_seed'], 'steps': len(case['schedule_from_seed']),
+                                'aid': 'c', 'arr': arrs['c'], 'obs': obs['c']['obs']}) + '\n')
+        cfg = 'SPECIFICATION Spec\nPOSTCONDITION TraceAccepted\nCHECK_DEADLOCK FALSE\n'
+        reports = pl.validate(run, 'Trace_Arrange', cfg, [path], what='Trace_Arrange (replay)')
+        idx = {cid: dict(case, before={'texts': obs['p']['texts'], 'obs': obs['p']['obs']},
+                         after={'texts': obs['c']['texts']}, obs=obs['c']['obs'])}
+        pl.classify(run, reports, idx, 'C19')
+        for n, t in obs['p']['texts']:
+            print('--- before: module %s\n%s' % (n, t))
+        for n, t in obs['c']['texts']:
+            print('--- after %s: module %s\n%s' % (json.dumps(case['action']), n, t))
+        return pl.finish(run, rule='replay of one recorded transition')
     except pl.Machinery as e:
         print('MACHINERY FAILURE C19: %s' % e)
         return 2
